@@ -242,6 +242,15 @@ pub trait Coll<P: PT>: Clone + Default {
     fn view_desc(&mut self, ctx: &Ctx, p: &P) -> Value;
     /// view_at(p0) then find / find_exact / find_lpm (q), read-only and mutable
     fn find_from(&mut self, ctx: &Ctx, p0: &P, q: &P, kind: &str) -> Value;
+    /// every full-traversal API (C03) drained, cloned after j items, polled after exhaustion;
+    /// Some(description) if any of them disagrees with `iter()`
+    fn iter_kinds_disagree(&self) -> Option<String> {
+        None
+    }
+    /// get_lpm_prefix / get_spm_prefix / cover_keys / cover_values vs their full twins
+    fn variants_disagree(&self, _p: &P) -> Option<String> {
+        None
+    }
     /// an observation-relative line (see trace::obs_event_over) over the given table universe
     fn obs_line(&self, _ctx: &Ctx, _universe: &[Vec<u8>]) -> Option<String> {
         None
@@ -322,6 +331,91 @@ impl<P: PT> Coll<P> for PrefixMap<P, i32> {
     }
     fn as_map(&mut self) -> Option<&mut PrefixMap<P, i32>> {
         Some(self)
+    }
+    fn iter_kinds_disagree(&self) -> Option<String> {
+        let base: Vec<(P, i32)> = self.iter().take(LIM).map(|(p, v)| (p.clone(), *v)).collect();
+        let keys: Vec<P> = base.iter().map(|x| x.0.clone()).collect();
+        let vals: Vec<i32> = base.iter().map(|x| x.1).collect();
+        macro_rules! chk {
+            ($name:expr, $got:expr, $exp:expr) => {
+                if $got != $exp {
+                    return Some(format!("{} yields {:?}, iter() yields {:?}", $name, $got, $exp));
+                }
+            };
+        }
+        chk!("keys", self.keys().take(LIM).cloned().collect::<Vec<_>>(), keys);
+        chk!("values", self.values().take(LIM).copied().collect::<Vec<_>>(), vals);
+        chk!("&map", (&*self).into_iter().take(LIM).map(|(p, v)| (p.clone(), *v)).collect::<Vec<_>>(), base);
+        let mut c = self.clone();
+        chk!("iter_mut", c.iter_mut().take(LIM).map(|(p, v)| (p.clone(), *v)).collect::<Vec<_>>(), base);
+        chk!("values_mut", c.values_mut().take(LIM).map(|v| *v).collect::<Vec<_>>(), vals);
+        chk!("into_iter", self.clone().into_iter().take(LIM).collect::<Vec<_>>(), base);
+        chk!("into_keys", self.clone().into_keys().take(LIM).collect::<Vec<_>>(), keys);
+        chk!("into_values", self.clone().into_values().take(LIM).collect::<Vec<_>>(), vals);
+        chk!("view().iter", self.view().iter().take(LIM).map(|(p, v)| (p.clone(), *v)).collect::<Vec<_>>(), base);
+        // clones taken after j items yield exactly the remainder; exhausted iterators stay exhausted
+        for j in 0..=base.len().min(6) {
+            let mut it = self.iter();
+            for _ in 0..j {
+                it.next();
+            }
+            let cl = it.clone();
+            let rest: Vec<(P, i32)> = cl.take(LIM).map(|(p, v)| (p.clone(), *v)).collect();
+            if rest != base[j.min(base.len())..].to_vec() {
+                return Some(format!("clone of iter() after {j} items yields {:?}", rest));
+            }
+            let mut ik = self.clone().into_iter();
+            for _ in 0..j {
+                ik.next();
+            }
+            let rest2: Vec<(P, i32)> = ik.clone().take(LIM).collect();
+            if rest2 != base[j.min(base.len())..].to_vec() {
+                return Some(format!("clone of into_iter() after {j} items yields {:?}", rest2));
+            }
+        }
+        let mut it = self.iter();
+        let mut n = 0;
+        while it.next().is_some() && n < LIM {
+            n += 1;
+        }
+        for _ in 0..3 {
+            if it.next().is_some() {
+                return Some("iter() yields an item after returning None".into());
+            }
+        }
+        let mut it = self.clone().into_iter();
+        while it.next().is_some() {}
+        for _ in 0..3 {
+            if it.next().is_some() {
+                return Some("into_iter() yields an item after returning None".into());
+            }
+        }
+        None
+    }
+    fn variants_disagree(&self, p: &P) -> Option<String> {
+        let lpm = self.get_lpm(p).map(|(q, _)| q.clone());
+        if self.get_lpm_prefix(p).cloned() != lpm {
+            return Some("get_lpm_prefix differs from get_lpm".into());
+        }
+        let mut c = self.clone();
+        if c.get_lpm_mut(p).map(|(q, v)| (q.clone(), *v)) != self.get_lpm(p).map(|(q, v)| (q.clone(), *v)) {
+            return Some("get_lpm_mut differs from get_lpm".into());
+        }
+        if self.get_spm_prefix(p).cloned() != self.get_spm(p).map(|(q, _)| q.clone()) {
+            return Some("get_spm_prefix differs from get_spm".into());
+        }
+        let cov: Vec<(P, i32)> = PrefixMap::cover(self, p).take(LIM).map(|(q, v)| (q.clone(), *v)).collect();
+        if self.cover_keys(p).take(LIM).cloned().collect::<Vec<_>>() != cov.iter().map(|x| x.0.clone()).collect::<Vec<_>>() {
+            return Some("cover_keys differs from cover".into());
+        }
+        if self.cover_values(p).take(LIM).copied().collect::<Vec<_>>() != cov.iter().map(|x| x.1).collect::<Vec<_>>() {
+            return Some("cover_values differs from cover".into());
+        }
+        let ch: Vec<(P, i32)> = PrefixMap::children(self, p).take(LIM).map(|(q, v)| (q.clone(), *v)).collect();
+        if self.clone().into_children(p).take(LIM).collect::<Vec<_>>() != ch {
+            return Some("into_children differs from children".into());
+        }
+        None
     }
     fn obs_line(&self, ctx: &Ctx, universe: &[Vec<u8>]) -> Option<String> {
         let real: Vec<Vec<u8>> = universe.iter().map(|n| ctx.dec_n(n)).collect();
@@ -442,6 +536,32 @@ impl<P: PT> Coll<P> for PrefixSet<P> {
     }
     fn snap(&self) -> VerifSnapshot {
         self.verif_snapshot()
+    }
+    fn iter_kinds_disagree(&self) -> Option<String> {
+        let base: Vec<P> = self.iter().take(LIM).cloned().collect();
+        if (&*self).into_iter().take(LIM).cloned().collect::<Vec<_>>() != base {
+            return Some("&set differs from iter()".into());
+        }
+        if self.clone().into_iter().take(LIM).collect::<Vec<_>>() != base {
+            return Some("set.into_iter() differs from iter()".into());
+        }
+        for j in 0..=base.len().min(6) {
+            let mut it = self.iter();
+            for _ in 0..j {
+                it.next();
+            }
+            if it.clone().take(LIM).cloned().collect::<Vec<_>>() != base[j.min(base.len())..].to_vec() {
+                return Some(format!("clone of set iter() after {j} items differs"));
+            }
+        }
+        let mut it = self.iter();
+        while it.next().is_some() {}
+        for _ in 0..3 {
+            if it.next().is_some() {
+                return Some("set iter() yields an item after returning None".into());
+            }
+        }
+        None
     }
     fn as_map(&mut self) -> Option<&mut PrefixMap<P, i32>> {
         None
@@ -786,16 +906,37 @@ fn apply_inner<P: PT, C: Coll<P>>(c: &mut C, ev: &Value, ctx: &Ctx) -> Option<Ou
         }),
         "Contains" => guarded(|| json!([c.contains(&p()) as i32])),
         "Lpm" => guarded(|| {
+            if let Some(d) = c.variants_disagree(&p()) {
+                return json!(["VARIANTS-DIFFER", d]);
+            }
             let r = c.lpm(&p());
             pv(ctx, r.as_ref().map(|(p, v)| (p, *v)))
         }),
         "Spm" => guarded(|| {
+            if let Some(d) = c.variants_disagree(&p()) {
+                return json!(["VARIANTS-DIFFER", d]);
+            }
             let r = c.spm(&p());
             pv(ctx, r.as_ref().map(|(p, v)| (p, *v)))
         }),
-        "Cover" => guarded(|| pvs(ctx, c.cover(&p(), 2).into_iter())),
-        "Children" => guarded(|| pvs(ctx, c.children(&p()).into_iter())),
-        "Iter" => guarded(|| pvs(ctx, c.entries().into_iter())),
+        "Cover" => guarded(|| {
+            if let Some(d) = c.variants_disagree(&p()) {
+                return json!(["VARIANTS-DIFFER", d]);
+            }
+            pvs(ctx, c.cover(&p(), 2).into_iter())
+        }),
+        "Children" => guarded(|| {
+            if let Some(d) = c.variants_disagree(&p()) {
+                return json!(["VARIANTS-DIFFER", d]);
+            }
+            pvs(ctx, c.children(&p()).into_iter())
+        }),
+        "Iter" => guarded(|| {
+            if let Some(d) = c.iter_kinds_disagree() {
+                return json!(["ITER-KINDS-DIFFER", d]);
+            }
+            pvs(ctx, c.entries().into_iter())
+        }),
         "Len" => guarded(|| json!([c.len()])),
         _ => return None,
     };
